@@ -87,7 +87,11 @@ func main() {
 		}
 		for i, o := range fv.obls {
 			if o.Status != "unsat" || *verbose {
-				fmt.Printf("   %-8s %s  [%s %s %.2fs] path=%s %s\n", o.Status, o.Name, o.Solver, o.PosStr, o.Secs, o.Path, truncate(o.Clause, 80))
+				cand := ""
+				if o.Candidate {
+					cand = "+cand"
+				}
+				fmt.Printf("   %-8s %s  [%s %s %.2fs] path=%s %s\n", o.Status+cand, o.Name, o.Solver, o.PosStr, o.Secs, o.Path, truncate(o.Clause, 80))
 				if o.Status != "unsat" {
 					fail++
 				}
